@@ -2,9 +2,11 @@
    Statements only; every proof is `exact <lemma from Proofs/StorageProofs.v>`.
    Gen/GenHashes.v (the two precomputed keccak tables) and Gen/GenStoreConsts.v (OffsetMap
    bucket arithmetic, hash-range guards of sha3_data, 2^64 array bound, generic padding)
-   are regenerated from /repo/src/halmos/{hashes,utils,sevm}.py on every run. *)
+   are regenerated from /repo/src/halmos/{hashes,utils,sevm}.py on every run; so is
+   Gen/GenStoreAxioms.v (the condition under which load() appends the emptiness axiom of the
+   loaded index to the path, for each layout). *)
 From Coq Require Import ZArith NArith List Bool.
-From HV Require Import Base.Keccak Spec.StorageSpec Gen.GenStoreConsts Gen.GenHashes
+From HV Require Import Base.Keccak Spec.StorageSpec Gen.GenStoreConsts Gen.GenHashes Gen.GenStoreAxioms
   Model.StorageModel Proofs.StorageProofs.
 Import ListNotations.
 Open Scope Z_scope.
@@ -119,6 +121,96 @@ Theorem C08_transient_fresh_accounts :
     map fst (fresh_transient_storage key val ts) = map fst ts.
 Proof. exact transient_fresh_accounts. Qed.
 Print Assumptions C08_transient_fresh_accounts.
+
+(* ---- the path side.  The terms load() returns mention z3 array terms -- the initial
+   (`_00`) array of a chunk, the numbered array variables store() introduces -- whose meaning
+   is given ONLY by the axioms load()/store() append to ex.path: `var == Store(base, k, v)`
+   per store, `Select(initial, k) == 0` per load of a non-symbolic account (the initial array
+   itself is uninterpreted).  For the guard of either layout as regenerated from the code:
+
+   the emptiness axiom is appended by every load of a non-symbolic account, whatever the key
+   looks like, and never for a symbolic one *)
+Theorem C08_emptiness_axiom_guard :
+  forall emits, emits = sol_load_emits_empty \/ emits = gen_load_emits_empty ->
+    (forall key_is_value, emits false key_is_value = true) /\
+    (forall key_is_value, emits true key_is_value = false).
+Proof. exact code_guard_ok. Qed.
+Print Assumptions C08_emptiness_axiom_guard.
+
+(* one load, any Exec state satisfying the invariant of runs (pwf: definitions numbered
+   1 + len(ex.storages) and referring to older arrays only, every chunk's array rooted in its
+   own initial array, every recorded definition also in the path): under EVERY interpretation
+   I of the array terms that satisfies the path after the load, the returned term evaluates
+   to what the chain-level model of C08_raw computes, the initial contents being I's *)
+Theorem C08_path_load :
+  forall (key val : Type) (kden : env -> key -> Z) (evalv : env -> val -> Z) (orc : key -> key -> tri)
+         (key_is_value : key -> bool) (emits : bool -> bool -> bool) (I : aref -> Z -> Z) (e : env),
+    emits = sol_load_emits_empty \/ emits = gen_load_emits_empty ->
+    forall (s : pstate key val) (c : chunkid) (k : key), pwf key val s ->
+      (forall ax, In ax (p_path key val (snd (pload key val orc key_is_value emits s c k))) ->
+         holds key val kden evalv I e ax) ->
+      evalp key val kden evalv I e (fst (pload key val orc key_is_value emits s c k)) =
+      evalr key val kden evalv (fun c i => I (AEmpty c) i) e (p_symbolic key val s)
+        (load key val orc (abs key val s) c k).
+Proof. exact path_load_code. Qed.
+Print Assumptions C08_path_load.
+
+(* whole sequences on a fresh non-symbolic account: under EVERY model I of the storage axioms
+   the run left in the path (no assumption on the initial arrays other than those axioms),
+   the terms returned by the loads evaluate to what the EVM's flat, zero-initialised array
+   returns -- a never-written location reads as 0 in every model of the path *)
+Theorem C08_path_sequences :
+  forall (key val : Type) (kden : env -> key -> Z) (evalv : env -> val -> Z) (orc : key -> key -> tri)
+         (key_is_value : key -> bool) (emits : bool -> bool -> bool) (adm : env -> Prop),
+    emits = sol_load_emits_empty \/ emits = gen_load_emits_empty ->
+    (forall a b, orc a b = MustEq -> forall e, adm e -> kden e a = kden e b) ->
+    (forall a b, orc a b = MustNeq -> forall e, adm e -> kden e a <> kden e b) ->
+    forall (H : Z -> Z -> Z) (decode : loc -> res (chunkid * key)) (e : env) (fam : list loc) (ops : list (op val)),
+      adm e -> faithful_on key kden H decode e fam ->
+      (forall o, In o ops -> In (op_loc val o) fam) ->
+      forall I : aref -> Z -> Z,
+        (forall ax, In ax (p_path key val (snd (prun key val orc key_is_value emits decode (p_empty key val) ops))) ->
+           holds key val kden evalv I e ax) ->
+        map (evalp key val kden evalv I e) (fst (prun key val orc key_is_value emits decode (p_empty key val) ops)) =
+        ref_run H e val evalv fempty ops.
+Proof. exact path_seq_code. Qed.
+Print Assumptions C08_path_sequences.
+
+(* the axioms never over-constrain: the path of every run has a model -- with all-zero
+   initial arrays for a non-symbolic account, and with ANY initial arrays for a symbolic one
+   (symbolic initial storage stays unconstrained; C08_path_sequences is not vacuous) *)
+Theorem C08_path_has_model :
+  forall (key val : Type) (kden : env -> key -> Z) (evalv : env -> val -> Z) (orc : key -> key -> tri)
+         (key_is_value : key -> bool) (emits : bool -> bool -> bool),
+    emits = sol_load_emits_empty \/ emits = gen_load_emits_empty ->
+    forall (decode : loc -> res (chunkid * key)) (e : env) (sym : bool) (ops : list (op val))
+           (init : chunkid -> Z -> Z),
+      (sym = false -> forall c i, init c i = 0) ->
+      exists I : aref -> Z -> Z,
+        (forall c i, I (AEmpty c) i = init c i) /\
+        (forall ax, In ax (p_path key val (snd (prun key val orc key_is_value emits decode (p_start key val sym) ops))) ->
+           holds key val kden evalv I e ax).
+Proof. exact path_model_code. Qed.
+Print Assumptions C08_path_has_model.
+
+(* non-vacuity: the undecided store.  m[v0] = 7; m[5] with the solver not deciding v0 = 5:
+   the load returns Select(array variable 1, key 5) and the path holds both axioms *)
+Example C08_path_nonvacuous :
+  sol_prun Z orc_unknown reg_empty (p_empty (list kt) Z)
+    [OStore (Sha512 (V 0) (K 1)) 7; OLoad (Sha512 (K 5) (K 1))] =
+  ([PSelect (AVar 1) (key_m (K 5))],
+   {| p_symbolic := false; p_mapping := [((1, 2, 512), PArr (AVar 1))];
+      p_storages := [(1%nat, (AEmpty (1, 2, 512), key_m (V 0), 7))];
+      p_path := [AxEmpty (1, 2, 512) (key_m (K 5)); AxDef 1 (AEmpty (1, 2, 512)) (key_m (V 0)) 7] |}).
+Proof. exact undecided_example. Qed.
+
+(* non-vacuity of C08_path_sequences: the program of C08_sequences_nonvacuous through the real
+   solidity decoder (real Keccak), the code's guard and a deciding oracle *)
+Example C08_path_sequences_nonvacuous : forall I : aref -> Z -> Z,
+  (forall ax, In ax (p_path (list kt) Z (snd (sol_prun Z orc_ex reg_empty (p_empty (list kt) Z) ops_ex))) ->
+     holds (list kt) Z sol_kden evalZ I env1 ax) ->
+  map (evalp (list kt) Z sol_kden evalZ I env1) (fst (sol_prun Z orc_ex reg_empty (p_empty (list kt) Z) ops_ex)) = [7; 8; 7; 9].
+Proof. exact path_seq_example. Qed.
 
 (* ---- REFUTED: decoding is not monotone in the registry (finding F4).  With the real
    Keccak-256: the constant keccak(100000) decodes to the scalar slot before the hash is
